@@ -9,6 +9,16 @@ TB = ("Lean 4.33.0 kernel (thorough: + leanchecker); axioms ⊆ {propext, Classi
       "check (testing); external crates/kernel/fs as listed in DESIGN.md §5")
 
 CLAIMED = {
+    "C02": dict(
+        text="Lean theorem isAllowed_eq_spec: for every rule document with pairwise-distinct privilege/role/identity names "
+             "(dangling names, missing sections, any mode/default strings included), every URL and caller, the model of "
+             "from_authorization_item + is_allowed equals the property's sentence evaluated on the document; plus "
+             "order-independence (document lists and hash-iteration order), letter-case congruences, disabled/default/deny "
+             "clauses, and a kernel-checked negative witness for duplicate names (known finding F2). The model is tied to "
+             "the real serde_json -> ComputedAuthorizationItem -> is_allowed path by seeded structured documents, each also "
+             "evaluated on a permuted copy; the implementation's decision is compared with both the model and the spec.",
+        design="§7 C02, §8 F1 F2",
+        technique="Lean 4 proof (refinement of the flattening to the declared semantics) + differential correspondence"),
     "C20": dict(
         text="Lean theorems over all finite observation/notification histories (induction, invariant) about the "
              "model of StatusState/ServiceState instantiated with constants regenerated from the source; the model "
